@@ -298,6 +298,64 @@ def check_lifetimes(state, automaton):
     return bad
 
 
+WAITING_KINDS = ("match", "match_ref", "await_flow", "await_action", "start_flow", "start_action", "activate_flow", "when", "group", "while", "if")
+
+
+def check_activation_liveness(state, program):
+    """I4 (restart half): "an activated flow is started again whenever its instance ends, for as long as a flow that
+    activated it is running".  For every running flow A whose body begins with `activate g` (the generator puts
+    activations at the head of a body, so a flow that waits further down has performed them) there is a listening
+    instance of g - or, for a g without any waiting statement ("finishes without ever waiting: runs once and stays
+    activated"), an instance that is still marked activated.  Returns [(kind, who, detail)]."""
+    import nemoguardrails.colang.v2_x.runtime.statemachine as sm
+
+    flows = {f["name"]: f for f in program.get("flows", [])}
+    bad = []
+    by_id = {}
+    for f in state.flow_states.values():
+        by_id.setdefault(f.flow_id, []).append(f)
+    for a in state.flow_states.values():
+        if a.status.name != "STARTED" or a.flow_id not in flows:
+            continue
+        body = flows[a.flow_id]["body"]
+        lead = []
+        for st in body:
+            if st["k"] != "activate_flow":
+                break
+            lead.append(st["flow"])
+        if not lead or len(lead) == len(body):
+            continue  # nothing activated, or the flow consists of activations only (no later wait proves they were done)
+        # A must be waiting past its head: its active heads sit beyond the expansion of the leading activations; approximated
+        # by "A is STARTED and none of the g is still being started" (no instance in WAITING/STARTING state)
+        for g in lead:
+            insts = by_id.get(g, [])
+            if any(i.status.name in ("WAITING", "STARTING") for i in insts):
+                continue
+            gbody = flows.get(g, {}).get("body", [])
+            instant = not any(s["k"] in WAITING_KINDS or s["k"] in ("abort",) for s in _walk(gbody))
+            if any(sm.is_listening_flow(i) for i in insts):
+                continue
+            if instant and any(i.activated > 0 for i in insts):
+                continue
+            bad.append(("activation-not-alive", "%s->%s" % (a.flow_id, g), "flow %s (%s) is running and has activated %s, but no instance of %s is listening (instances: %s)"
+                        % (a.flow_id, a.status.name, g, g, [(i.status.name, i.activated) for i in insts])))
+    return bad
+
+
+def _walk(body):
+    for s in body:
+        yield s
+        if s["k"] == "when":
+            for c in s["cases"]:
+                yield from _walk(c["body"])
+            yield from _walk(s.get("else") or [])
+        elif s["k"] == "if":
+            yield from _walk(s["then"])
+            yield from _walk(s.get("else") or [])
+        elif s["k"] == "while":
+            yield from _walk(s["body"])
+
+
 def _owed_by_other(state, c, done_uid, parents):
     """An activated instance may outlive one activator if another running flow activated the same
     flow (+params): look for a listening flow, not below the done flow, that has an activated child
